@@ -10,6 +10,7 @@ def run(rep, W, ctx):
     S.s_sql_closed(rep, W)
     S.s_class(rep, W)
     S.c18_ops(rep, W)
+    S.c10(rep, W)          # which AddSnapshot requests are *declined* is defined by the acceptance conditions
     S.s_wmc(rep, W)
     S.c03_loop(rep, W)
     H.c18_handlers(rep, W)
